@@ -2,6 +2,7 @@ import Srctools.Wire
 import Srctools.Model.C20
 import Srctools.Model.C20Bvcd
 import Srctools.Model.C20Snd
+import Srctools.Model.C20Vmt
 import Srctools.Gen.Kvser
 import Srctools.Gen.Tok
 import Srctools.Gen.C20
@@ -22,6 +23,9 @@ big integers as decimal strings.
   {"op":"vmt_quote","s":[cp…]}          → {"r":[cp…]}
   {"op":"bvcd_enc","scene":S,"pool0":[hex…]} → {"r":hex,"pool":[hex…],"strs":[hex…]}   (pool = pool0 + strings in call order)
   {"op":"bvcd_dec","b":hex,"pool":[hex…]}    → {"r":null|S}
+  {"op":"vmt_export","m":VMT,"fold":[[cp,[cp]]]} → {"text","toks","lexed","lexok","parsed"}   (Material.export text, the tokens it denotes,
+        the tokens the tokenizer model finds in it, Material.parse of it);  VMT = {"shader":[cp],"params":[[[cp],[cp]]],"blocks":[KV],"proxies":[KV]}
+  {"op":"vmt_parse","text":[cp],"fold":…}  → {"r":VMT|null}                     (Material.parse on any text)
   {"op":"snd_export","sound":SND}          → {"text":[cp…],"kv":KV,"norm":OUT}   (Sound.export text, the tree it denotes, normSnd)
   {"op":"snd_parse","kv":KV,"env":ENV}     → {"r":OUT|{"err":…}}                 (Sound.parse_one on a Keyvalues tree)
         KV = ["l",[cp],[cp]] | ["b",[cp],[KV…]]
@@ -288,6 +292,30 @@ def outJ (s : SoundOut) : Json :=
                                      Json.arr (c.map kvJ).toArray])]
 end SJ
 
+def foldOfJ (j : Json) : Except String (Char → List Char) := do
+  let fold ← (← j.getArr?).toList.mapM fun p => do
+    let a ← p.getArr?
+    pure (Char.ofNat (← (a[0]!).getNat?), ← Wire.strOfCodes a[1]!)
+  pure fun c => match fold.find? (·.1 == c) with | some p => p.2 | none => [c]
+
+namespace VJ
+open C20.Vmt
+
+def vmtOf (j : Json) : Except String Vmt := do
+  let ps ← (← (← j.getObjVal? "params").getArr?).toList.mapM fun p => do
+    let a ← p.getArr?
+    pure (← SJ.strOf a[0]!, ← SJ.strOf a[1]!)
+  pure { shader := ← SJ.strOf (← j.getObjVal? "shader"), params := ps,
+         blocks := ← SJ.kvsOf (← j.getObjVal? "blocks"), proxies := ← SJ.kvsOf (← j.getObjVal? "proxies") }
+
+def vmtJ (m : Vmt) : Json :=
+  Json.mkObj [("shader", SJ.strJ m.shader),
+    ("params", Json.arr (m.params.map fun p => Json.arr #[SJ.strJ p.1, SJ.strJ p.2]).toArray),
+    ("blocks", Json.arr (m.blocks.map SJ.kvJ).toArray), ("proxies", Json.arr (m.proxies.map SJ.kvJ).toArray)]
+
+def tksJ (l : List Tk) : Json := Json.arr (l.map fun t => Json.arr #[nat t.1, SJ.strJ t.2]).toArray
+end VJ
+
 def handle (j : Json) : Except String Json := do
   let op ← j.getObjValAs? String "op"
   let r (x : Json) := Json.mkObj [("r", x)]
@@ -329,6 +357,19 @@ def handle (j : Json) : Except String Json := do
   | "vmt_quote" =>
     pure (r (Wire.codesOfStr (vmtQuote Gen.Tok.tables Gen.C20.vmtLead
       (← Wire.strOfCodes (← j.getObjVal? "s")))))
+  | "vmt_export" =>
+    let m ← VJ.vmtOf (← j.getObjVal? "m")
+    let fold ← foldOfJ (← j.getObjVal? "fold")
+    let text := C20.Vmt.exportVmt Gen.Tok.tables Gen.C20.vmtLead m
+    let run := Tok.run Gen.Tok.tables C20.vmtOpts fold text
+    pure (Json.mkObj [("text", Wire.codesOfStr text), ("toks", VJ.tksJ (C20.Vmt.toksVmt m)),
+      ("lexed", VJ.tksJ (run.toks.map fun o => (o.kind, o.value))), ("lexok", Json.bool run.err.isNone),
+      ("parsed", match C20.Vmt.parseVmtRun fold run with | some x => VJ.vmtJ x | none => Json.null)])
+  | "vmt_parse" =>
+    let fold ← foldOfJ (← j.getObjVal? "fold")
+    pure (r (match C20.Vmt.parseVmtText Gen.Tok.tables fold (← Wire.strOfCodes (← j.getObjVal? "text")) with
+      | some x => VJ.vmtJ x
+      | none => Json.null))
   | "snd_export" =>
     let snd ← SJ.soundOf (← j.getObjVal? "sound")
     pure (Json.mkObj [("text", Wire.codesOfStr (C20.Snd.exportSndText Gen.Tok.tables Gen.Kvser.cfg snd)),
